@@ -155,6 +155,43 @@ def dictdoc_polymorphic(sx, p):
     return sx.And(*ok)
 
 
+@harness('C16', params=[(pn, poly, ci, cj) for pn in sorted(DICT_PROTS) for poly in (True, False) for ci in range(3) for cj in range(3)],
+         label=lambda p: '%s polymorphic=%s array=[%s, %s]' % (p[0], p[1], CLASSES[p[2]].__name__, CLASSES[p[3]].__name__),
+         functions=['spyne.protocol._base.ProtocolMixin.get_polymorphic_target',
+                    'spyne.protocol.dictdoc.hier.HierDictDocument._object_to_doc',
+                    'spyne.protocol.dictdoc.hier.HierDictDocument._doc_to_object'],
+         bounds={'tree': 'an Array(Base) holding two elements of independently chosen runtime classes (all 9 pairs over '
+                         'Base/Child/GrandChild); field values symbolic'})
+def dictdoc_mixed_array(sx, p):
+    """an array of the base type holding mixed subclasses: every element travels under its own class name with all of its
+    fields and comes back as an instance of its own class (polymorphic off: every element as the declared class)"""
+    pname, poly, ci, cj = p
+    app, ctx = dict_app(pname, poly)
+    prot = app.out_protocol
+    items = [mk_inst(sx, CLASSES[ci], 'v0'), mk_inst(sx, CLASSES[cj], 'v1')]
+    cont = Container(many=[items[0][0], items[1][0]])
+    doc = prot._object_to_doc(Container, cont)
+    body = _unwrap(pname, doc, 'Container')
+    if body is None or not isinstance(body.get(_k(pname, 'many')), list) or len(body[_k(pname, 'many')]) != 2:
+        return False
+    ok = []
+    for node, (inst, vals) in zip(body[_k(pname, 'many')], items):
+        sent_cls = type(inst) if poly else Base
+        inner = _unwrap(pname, node, sent_cls.__name__)
+        if inner is None:
+            return False
+        ok.append(_fields_ok(sx, pname, inner, sent_cls, vals))
+    back = app.in_protocol._doc_to_object(ctx, Container, doc, None)
+    if not isinstance(back.many, list) or len(back.many) != 2:
+        return False
+    for got, (inst, vals) in zip(back.many, items):
+        sent_cls = type(inst) if poly else Base
+        ok.append(type(got) is sent_cls)
+        for f in FIELDS[sent_cls]:
+            ok.append(sx.eq(getattr(got, f), vals[f]))
+    return sx.And(*ok)
+
+
 LATE = [0]
 
 
@@ -270,10 +307,12 @@ def xml_wire_polymorphic(sx, p):
         XAPPS[key] = mk_app(P(), P(polymorphic=poly))
     app = XAPPS[key]
     server = ServerBase(app)
-    cls = CLASSES[ci]
-    vals = dict((f, (i + 1) if f in ('a', 'b') else 'v%d' % i) for i, f in enumerate(FIELDS[cls]))
-    inst = cls(**vals)
-    RET['ret'] = Container(**{slot: [inst] if slot == 'many' else inst})
+    sent = [CLASSES[ci]] + ([CLASSES[(ci + 1) % 3]] if slot == 'many' else [])    # arrays hold mixed subclasses
+    insts = []
+    for k, c in enumerate(sent):
+        vals = dict((f, (i + 1 + 10 * k) if f in ('a', 'b') else 'v%d%d' % (k, i)) for i, f in enumerate(FIELDS[c]))
+        insts.append((c, vals, c(**vals)))
+    RET['ret'] = Container(**{slot: [x[2] for x in insts] if slot == 'many' else insts[0][2]})
     body = b'<echo xmlns="tns"><c/></echo>'
     if pname != 'XmlDocument':
         env = 'http://schemas.xmlsoap.org/soap/envelope/' if pname == 'Soap11' else 'http://www.w3.org/2003/05/soap-envelope'
@@ -288,19 +327,19 @@ def xml_wire_polymorphic(sx, p):
         return False
     root = etree.fromstring(b''.join(ctx.out_string))
     hits = [e for e in root.iter() if isinstance(e.tag, str) and etree.QName(e).localname == ('Base' if slot == 'many' else slot)]
-    if len(hits) != 1:
+    if len(hits) != len(insts):
         return False
-    el = hits[0]
-    names = [etree.QName(c).localname for c in el]
-    sent_cls = cls if poly else Base
-    ok = [names == FIELDS[sent_cls]]
-    xt = el.get('{%s}type' % XSI_NS)
-    if poly and cls is not Base:
-        if xt is None or ':' not in xt:
-            return False
-        pfx, nm = xt.split(':', 1)
-        ok.append(el.nsmap.get(pfx) == 'tns')        # resolves in the transmitted document
-        ok.append(nm == cls.__name__)
+    ok = []
+    for el, (cls, vals, _) in zip(hits, insts):
+        sent_cls = cls if poly else Base
+        ok.append([(etree.QName(c).localname, c.text) for c in el] == [(f, str(vals[f])) for f in FIELDS[sent_cls]])
+        xt = el.get('{%s}type' % XSI_NS)
+        if poly and cls is not Base:
+            if xt is None or ':' not in xt:
+                return False
+            pfx, nm = xt.split(':', 1)
+            ok.append(el.nsmap.get(pfx) == 'tns')        # resolves in the transmitted document
+            ok.append(nm == cls.__name__)
     return sx.And(*ok)
 
 
